@@ -448,3 +448,284 @@ Proof.
       eapply not_sound; [apply operand_sound|reflexivity].
     + intros [m [u|]]; cbn; rewrite ?app_nil_r; reflexivity.
 Qed.
+
+(* ---------------------------------------------------------------- config maps *)
+Lemma config_key_sound P : sound P (fun s => [AText None s]) config_key.
+Proof.
+  unfold config_key. eapply recognize_sound. apply pair_sound.
+  - apply alt_sound; apply terminal_sound; [apply take_while1_terminal|apply tag_terminal].
+  - apply many0_sound. apply alt_sound; apply terminal_sound; [apply take_while1_terminal|apply tag_terminal].
+Qed.
+
+Lemma kvp_value_sound p : (forall P, sound P a_token p) ->
+  sound notriv_m a_token (alt p (map_p (fun e => TExpression (data e)) expression)).
+Proof.
+  intros Hp. apply alt_sound; [apply Hp|].
+  eapply sound_weaken with (P := notriv); [|apply notriv_m_notriv].
+  pose proof (expr_data_sound expression expression_ok) as H.
+  intros st i st' res E. unfold map_p in E. destruct (expression st i) as [s1 [e r| |x]] eqn:Ee.
+  - assert (E2 : map_p data expression st i = (s1, Ok (data e) r)) by (unfold map_p; rewrite Ee; reflexivity).
+    inversion E; subst. apply (H _ _ _ _ E2).
+  - assert (E2 : map_p data expression st i = (s1, Err)) by (unfold map_p; rewrite Ee; reflexivity).
+    inversion E; subst. apply (H _ _ _ _ E2).
+  - assert (E2 : map_p data expression st i = (s1, Abort x)) by (unfold map_p; rewrite Ee; reflexivity).
+    inversion E; subst. apply (H _ _ _ _ E2).
+Qed.
+
+Lemma kvp_sound P p : (forall P, sound P a_token p) -> sound P a_token (kvp p).
+Proof.
+  intros Hp. unfold kvp. change (slot W_kvp 2) with W_mws. eapply map_sound.
+  - apply pair_sound; [apply wr_text_sound, config_key_sound|]. apply pair_sound; [apply wr_char_sound|].
+    apply (wr_sound_after anyP a_token W_mws). apply kvp_value_sound. assumption.
+  - intros [k [e v]]. reflexivity.
+Qed.
+Lemma config_map_body_sound P p : (forall P, sound P a_token p) -> sound P a_token (config_map_body p).
+Proof.
+  intros Hp. unfold config_map_body. eapply map_sound.
+  - apply pair_sound; [apply wr_char_sound|]. apply pair_sound; [|apply wr_char_sound].
+    apply many0_sound with (sa := a_token). apply kvp_sound. assumption.
+  - intros [l [inner r]]. reflexivity.
+Qed.
+Lemma config_map_fuel_sound fuel : forall P, sound P a_token (config_map_fuel fuel).
+Proof.
+  induction fuel as [|f IH]; intros P.
+  - intros st i st' res E. inversion E; subst. split; [apply sle_refl|exact I].
+  - cbn [config_map_fuel]. apply config_map_body_sound. assumption.
+Qed.
+Lemma config_map_sound P : sound P a_token config_map.
+Proof. intros st i. unfold config_map. apply config_map_fuel_sound. Qed.
+
+(* ---------------------------------------------------------------- error tokens *)
+Lemma error_impl_sound P b : sound P a_token (error_impl b).
+Proof.
+  assert (Hw : sound P a_text (wr (slot W_error_impl 0)
+            (recognize (alt (recognize (pair_p (one_of error_lead) (take_till (error_stop_p b)))) (take_till1 (error_stop_p b)))))).
+  { apply wr_text_sound. eapply recognize_sound. apply alt_sound.
+    - eapply recognize_sound. apply pair_sound; apply terminal_sound; [apply satisfy_terminal|apply take_while0_terminal].
+    - apply terminal_sound, take_while1_terminal. }
+  intros st i st' res E. unfold error_impl in E.
+  destruct (wr (slot W_error_impl 0) _ st i) as [s1 [l r| |x]] eqn:Ew; destruct (Hw _ _ _ _ Ew) as [Hs Hr];
+    inversion E; subst; try (split; [assumption|exact I]).
+  split; [eapply sle_trans; [exact Hs|apply report_error_sle]|].
+  destruct Hr as [H1 [O1 L1]]. cbn [a_token]. split; [exact H1|]. split; [exact O1|].
+  intros Hi Hl. apply (proj2 (report_error_sle _ s1)). apply L1; assumption.
+Qed.
+
+(* ---------------------------------------------------------------- statements *)
+Definition kw_ok (k : text * text) : Prop := ci_eqb (fst k) (snd k) = true.
+Ltac kw_side := vm_compute; reflexivity.
+
+Lemma as_sound P : sound P (a_opt a_import_as) as_.
+Proof.
+  unfold as_. apply opt_sound. eapply sound_ext.
+  - apply pair_sound; [apply wr_kw_sound; kw_side|]. apply wr_path_sound. vm_compute. discriminate.
+  - intros [t p]. reflexivity.
+Qed.
+
+Section Statements.
+  Variable p_stmt : parser token.
+  Hypothesis Hstmt : forall P, sound P a_token p_stmt.
+
+  Lemma block_sound P : sound P a_block (block p_stmt).
+  Proof.
+    unfold block. eapply map_sound_equiv.
+    - apply pair_sound; [apply wr_char_sound|]. apply pair_sound.
+      + apply many0_sound with (sa := a_token). apply alt_sound; [apply Hstmt|apply error_impl_sound].
+      + apply (expect_sound anyP a_char _ MClosing [AMissing (mkLoc 0 0 0 None)]); try reflexivity; [apply wr_char_sound| |discriminate].
+        repeat constructor.
+    - intros [l [inner [r|]]]; cbn [fst snd a_block].
+      + apply aequiv_refl.
+      + apply aequiv_app; [apply aequiv_refl|]. apply aequiv_app; [apply aequiv_refl|].
+        split; [reflexivity|]. split; [intros _; repeat constructor|auto].
+  Qed.
+
+  Lemma opt_block_sound P : sound P (fun b => match b with Some b => a_block b | None => [] end) (opt (block p_stmt)).
+  Proof. eapply sound_ext; [apply opt_sound, block_sound|]. intros [b|]; reflexivity. Qed.
+
+  Lemma braces_sound P : sound P a_token (braces p_stmt).
+  Proof. unfold braces. eapply with_scope_sound; [apply block_sound|]. reflexivity. Qed.
+
+  Lemma label_sound P : sound P a_token (label p_stmt).
+  Proof.
+    unfold label. eapply map_sound.
+    - apply pair_sound; [apply wr_text_sound, identifier_name_sound|]. apply pair_sound; [apply wr_char_sound|apply opt_block_sound].
+    - intros [i [c b]]. reflexivity.
+  Qed.
+
+  Lemma data_sound P : sound P a_token data_.
+  Proof.
+    unfold data_. eapply map_sound.
+    - apply pair_sound.
+      + apply alts_map_sound with (sa := a_tagged disp_DataSize). intros [k e] He. apply wr_tagged_sound.
+        apply in_combine_r in He. cbn [snd].
+        assert (H : forallb (fun e => ci_eqb (fst e) (disp_DataSize (snd e))) data_tags = true) by reflexivity.
+        rewrite forallb_forall in H. cbn. rewrite (H _ He). reflexivity.
+      + apply (expect_sound anyP a_eargs _ MExpression [] (expression_args_sound anyP) eq_refl eq_refl (Forall_nil _)). discriminate.
+    - intros [sz [v|]]; cbn; rewrite ?app_nil_r; reflexivity.
+  Qed.
+
+  Lemma varconst_impl_sound P k : ci_eqb (fst k) (disp_VariableType (snd k)) = true -> sound P a_token (varconst_impl k).
+  Proof.
+    intros Hk. unfold varconst_impl. eapply map_sound.
+    - apply pair_sound; [apply wr_tagged_sound; cbn; rewrite Hk; reflexivity|].
+      apply pair_sound; [apply wr_text_sound, identifier_name_sound|]. apply pair_sound; [apply wr_char_sound|apply expression_sound].
+    - intros [t [i [e v]]]. reflexivity.
+  Qed.
+
+  Lemma pc_definition_sound P : sound P a_token pc_definition.
+  Proof.
+    unfold pc_definition. eapply map_sound.
+    - apply pair_sound; [apply wr_char_sound|]. apply pair_sound; [apply wr_char_sound|apply expression_sound].
+    - intros [s [e v]]. reflexivity.
+  Qed.
+
+  Lemma config_definition_sound P : sound P a_token config_definition.
+  Proof.
+    unfold config_definition. eapply map_sound.
+    - apply pair_sound; [apply wr_kw_sound; kw_side|]. apply pair_sound; [apply wr_text_sound, identifier_name_sound|].
+      apply (expect_sound anyP a_token _ MConfig [] (config_map_sound anyP) eq_refl eq_refl (Forall_nil _)). discriminate.
+    - intros [t [i [v|]]]; reflexivity.
+  Qed.
+
+  Lemma macro_definition_sound P : sound P a_token (macro_definition p_stmt).
+  Proof.
+    unfold macro_definition. eapply map_sound.
+    - apply pair_sound; [apply wr_kw_sound; kw_side|]. apply pair_sound; [apply wr_text_sound, identifier_name_sound|].
+      apply pair_sound; [apply wr_char_sound|]. apply pair_sound; [apply opt_sound, identifier_arg_list_sound|].
+      apply pair_sound; [apply wr_char_sound|apply block_sound].
+    - intros [t [i [l [[a|] [r b]]]]]; reflexivity.
+  Qed.
+
+  Lemma macro_invocation_sound P : sound P a_token macro_invocation.
+  Proof.
+    unfold macro_invocation. eapply map_sound; [apply fn_call_parts_sound, expression_ok|].
+    intros [name [lp [[args|] rp]]]; reflexivity.
+  Qed.
+
+  Lemma segment_sound P : sound P a_token (segment p_stmt).
+  Proof.
+    unfold segment. eapply map_sound.
+    - apply pair_sound; [apply wr_kw_sound; kw_side|]. apply pair_sound; [apply expression_sound|apply opt_block_sound].
+    - intros [t [e b]]. reflexivity.
+  Qed.
+
+  Lemma loop_sound P : sound P a_token (loop_ p_stmt).
+  Proof.
+    unfold loop_. eapply with_scope_sound.
+    - apply pair_sound; [apply wr_kw_sound; kw_side|]. apply pair_sound; [apply expression_sound|apply block_sound].
+    - intros [t [e b]] n. reflexivity.
+  Qed.
+
+  Lemma if_sound P : sound P a_token (if_ p_stmt).
+  Proof.
+    unfold if_. eapply map_sound.
+    - apply pair_sound; [apply wr_kw_sound; kw_side|]. apply pair_sound; [apply expression_sound|].
+      apply pair_sound; [apply block_sound|]. apply opt_sound. apply pair_sound; [apply wr_kw_sound; kw_side|apply block_sound].
+    - intros [t [e [b [[t2 b2]|]]]]; reflexivity.
+  Qed.
+
+  Lemma align_sound P : sound P a_token align.
+  Proof.
+    unfold align. eapply map_sound.
+    - apply pair_sound; [apply wr_kw_sound; kw_side|apply expression_sound].
+    - intros [t e]. reflexivity.
+  Qed.
+
+  Lemma specific_arg_sound P : sound P a_specific specific_arg.
+  Proof.
+    unfold specific_arg. eapply map_sound.
+    - apply pair_sound; [apply wr_path_sound; vm_compute; discriminate|apply as_sound].
+    - intros [p a]. reflexivity.
+  Qed.
+
+  Lemma import_sound P : sound P a_token (import p_stmt).
+  Proof.
+    unfold import. eapply with_scope_sound.
+    - apply pair_sound; [apply wr_kw_sound; kw_side|]. apply pair_sound.
+      + apply alt_sound with (sa := a_import_args).
+        * eapply map_sound; [apply pair_sound; [apply wr_char_sound|apply as_sound]|]. intros [s a]. reflexivity.
+        * eapply map_sound; [apply arg_list_sound, specific_arg_sound|]. reflexivity.
+      + apply pair_sound; [apply wr_kw_sound; kw_side|]. apply pair_sound; [apply quoted_string_sound|apply opt_block_sound].
+    - intros [t [a [f [s b]]]] n. reflexivity.
+  Qed.
+
+  Lemma text_sound P : sound P a_token text_.
+  Proof.
+    unfold text_. eapply map_sound.
+    - apply pair_sound; [apply wr_kw_sound; kw_side|].
+      apply alt_sound with (sa := fun x => a_opt (a_tagged disp_TextEncoding) (fst x) ++ a_lexpr (snd x)).
+      + eapply map_sound; [apply pair_sound; [apply (wr_tagged_sound anyP _ disp_TextEncoding); reflexivity|apply expression_sound]|].
+        intros [e x]. reflexivity.
+      + eapply map_sound; [apply expression_sound|]. reflexivity.
+    - intros [t [e x]]. reflexivity.
+  Qed.
+
+  Lemma file_sound P : sound P a_token file.
+  Proof.
+    unfold file. eapply map_sound.
+    - apply pair_sound; [apply wr_kw_sound; kw_side|apply interpolated_string_sound].
+    - intros [t s]. reflexivity.
+  Qed.
+
+  Lemma test_sound P : sound P a_token (test p_stmt).
+  Proof.
+    unfold test. eapply map_sound.
+    - apply pair_sound; [apply wr_kw_sound; kw_side|]. apply pair_sound; [apply expression_sound|apply block_sound].
+    - intros [t [e b]]. reflexivity.
+  Qed.
+
+  Lemma assert_sound P : sound P a_token assert.
+  Proof.
+    unfold assert. eapply map_sound.
+    - apply pair_sound; [apply wr_kw_sound; kw_side|]. apply pair_sound; [apply expression_sound|apply opt_sound, interpolated_string_sound].
+    - intros [t [e m]]. reflexivity.
+  Qed.
+
+  Lemma trace_sound P : sound P a_token trace.
+  Proof.
+    unfold trace. eapply map_sound.
+    - apply pair_sound; [apply wr_kw_sound; kw_side|]. apply opt_sound.
+      apply pair_sound; [apply wr_char_sound|]. apply pair_sound; [apply opt_sound, expression_args_sound|apply wr_char_sound].
+    - intros [t [[l [[a|] r]]|]]; cbn; rewrite ?app_nil_r; reflexivity.
+  Qed.
+
+  Lemma statement_body_sound P : sound P a_token (statement_body p_stmt).
+  Proof.
+    unfold statement_body. apply alts_map_sound. intros k _. destruct k; cbn [stmt_parser].
+    - apply braces_sound.
+    - apply label_sound.
+    - apply instruction_sound.
+    - apply varconst_impl_sound. reflexivity.
+    - apply varconst_impl_sound. reflexivity.
+    - apply pc_definition_sound.
+    - apply config_definition_sound.
+    - apply macro_definition_sound.
+    - apply macro_invocation_sound.
+    - apply data_sound.
+    - apply segment_sound.
+    - apply loop_sound.
+    - apply if_sound.
+    - apply align_sound.
+    - apply import_sound.
+    - apply text_sound.
+    - apply file_sound.
+    - apply test_sound.
+    - apply assert_sound.
+    - apply trace_sound.
+  Qed.
+End Statements.
+
+Lemma statement_fuel_sound fuel : forall P, sound P a_token (statement_fuel fuel).
+Proof.
+  induction fuel as [|f IH]; intros P.
+  - intros st i st' res E. inversion E; subst. split; [apply sle_refl|exact I].
+  - cbn [statement_fuel]. apply statement_body_sound. assumption.
+Qed.
+Lemma statement_sound P : sound P a_token statement.
+Proof. intros st i. unfold statement. apply statement_fuel_sound. Qed.
+
+(* the statement list of source_file, and the text-level facts about eof = mws(rest) *)
+Lemma statements_sound P : sound P a_tokens (many0 (alt statement error)).
+Proof. apply many0_sound with (sa := a_token). apply alt_sound; [apply statement_sound|apply error_impl_sound]. Qed.
+Lemma eof_located_sound P : sound P a_text (wr (slot W_eof 0) rest).
+Proof. apply wr_text_sound. apply (terminal_sound (fun s => s)). apply rest_terminal. Qed.
